@@ -1,2 +1,68 @@
 (** C07 — reads on an encrypted connection deliver exactly the bytes sent. *)
-From HC Require Import Base.HBytes Model.Framing Model.ConnRead Proofs.ConnReadProofs.
+From HC Require Import Base.HBytes Base.ChaChaPoly Model.Framing Model.ConnRead Proofs.ConnReadProofs.
+
+(** Refinement to a byte FIFO.  For EVERY list of plaintext chunks the peer sealed (any number,
+    each at most one frame), EVERY schedule of socket reads that delivers their ciphertext (any
+    segmentation: frames split at any offset or several frames per segment; read timeouts
+    anywhere), EVERY sequence of positive caller buffer sizes, any AEAD with open∘seal = id:
+      * every Read result is data (non-empty) or a timeout, or the read blocks — never
+        end-of-stream, never a decryption error;
+      * delivered bytes ++ decrypted-but-undelivered bytes ++ chunks not yet decrypted = what
+        the peer sent: no byte lost, duplicated or reordered. *)
+Theorem C07_refines_fifo :
+  forall seal open,
+  (forall k n a p, open k n a (fst (seal k n a p)) (snd (seal k n a p)) = Some p) ->
+  (forall k n a p, length (fst (seal k n a p)) = length p /\ length (snd (seal k n a p)) = 16%nat) ->
+  forall key bsizes st evs chunks,
+    small chunks -> no_eof evs -> Forall (fun b => (0 < b)%nat) bsizes ->
+    received st ++ datas evs = wire seal key (rctr st) chunks ->
+    let '(rs, st', evs') := run_reads open key st bsizes evs in
+    Forall good_result rs /\
+    exists k, (k <= length chunks)%nat /\
+      concat (map out_of rs) ++ plain_of st' ++ concat (skipn k chunks) = plain_of st ++ concat chunks /\
+      received st' ++ datas evs' = wire seal key (rctr st') (skipn k chunks).
+Proof. exact reads_refine_fifo. Qed.
+Print Assumptions C07_refines_fifo.
+
+(** the instance hc runs *)
+Theorem C07_refines_fifo_chacha20poly1305 :
+  forall key bsizes st evs chunks,
+    small chunks -> no_eof evs -> Forall (fun b => (0 < b)%nat) bsizes ->
+    received st ++ datas evs = wire cc_seal key (rctr st) chunks ->
+    let '(rs, st', evs') := run_reads cc_open key st bsizes evs in
+    Forall good_result rs /\
+    exists k, (k <= length chunks)%nat /\
+      concat (map out_of rs) ++ plain_of st' ++ concat (skipn k chunks) = plain_of st ++ concat chunks /\
+      received st' ++ datas evs' = wire cc_seal key (rctr st') (skipn k chunks).
+Proof. exact cc_reads_refine_fifo. Qed.
+Print Assumptions C07_refines_fifo_chacha20poly1305.
+
+(** A read returns data as soon as a complete frame has arrived: it does not consume any
+    further socket event (does not wait for the network). *)
+Theorem C07_progress : forall key f st b evs c cs,
+  small (c :: cs) -> c <> [] -> plain st = None -> complete (received st) = true ->
+  received st ++ datas evs = wire cc_seal key (rctr st) (c :: cs) ->
+  exists st', conn_read cc_open key (S (S f)) st (S b) evs = (RData (firstn (S b) c), st', evs).
+Proof. exact cc_read_progress. Qed.
+Print Assumptions C07_progress.
+
+(** readFrame conserves the byte stream under every schedule (the lemma the pinned code failed:
+    its per-call bufio.Reader dropped read-ahead). *)
+Theorem C07_no_byte_lost_by_buffering : forall fuel rcv evs,
+  match read_frame fuel rcv evs with
+  | (FFrame f rcv1, rcv2, evs') =>
+      rcv2 = rcv1 /\ f ++ rcv1 ++ datas evs' = rcv ++ datas evs /\ frame_need f = Some (length f)
+  | (_, rcv2, evs') => rcv2 ++ datas evs' = rcv ++ datas evs
+  end.
+Proof. exact read_frame_conserves. Qed.
+Print Assumptions C07_no_byte_lost_by_buffering.
+
+Example C07_nonvacuous :
+  let key := repeat 3 32 in
+  let chunks := [[1;2;3;4;5]; [6;7]] in
+  let w := wire cc_seal key 0 chunks in
+  let evs := [SockTimeout; SockData (firstn 30 w); SockData (skipn 30 w)] in
+  small chunks /\ no_eof evs /\ received (init_conn 0) ++ datas evs = wire cc_seal key (rctr (init_conn 0)) chunks /\
+  fst (fst (run_reads cc_open key (init_conn 0) [3; 3; 3; 3; 3]%nat evs)) =
+    [RTimeout; RData [1;2;3]; RData [4;5]; RData [6;7]; RBlocked].
+Proof. exact connread_nonvacuous. Qed.
